@@ -55,3 +55,18 @@ func H_C18_pair() {
 	verifAssume(p0 != p1)
 	verifAssert(q0 != q1, "distinct standard-library paths get distinct qualifiers")
 }
+
+// a standard-library path referenced after a package it may collide with (rand, template, ...)
+func H_C18_after_collision() {
+	impSummaries()
+	canonicalMapOrder()
+	verifExactTables(true)
+	f := NewFile("p")
+	first := []string{"math/rand", "crypto/rand", "text/template", "net/http"}[nondetChoice("first", 4)]
+	b := &bytes.Buffer{}
+	Qual(first, "A").render(f, b, nil)
+	q0 := f.imports[first].name
+	p, q, _ := c18One(f, "p0")
+	verifAssume(p != first)
+	verifAssert(q != q0, "distinct standard-library paths get distinct qualifiers")
+}
